@@ -24,6 +24,7 @@ from dst import boot, canon, sched
 from dst.c20 import pool
 
 STEP_CAP = 2_000_000
+_SITE_MAP = None
 
 OP_KINDS = ["des", "ser", "ser_any", "des_method", "ser_method", "des_schema", "ser_schema", "defs_schema", "gql_print"]
 
@@ -116,7 +117,13 @@ def make_plan(seed: int, tier: str = "quick") -> dict:
         strat = ["lazyinit", rng.choice([0.3, 0.6, 1.0]), rng.choice([0.03, 0.1, 0.3, 1.0])]
     else:
         strat = ["nopreempt"]
-    opcode = tier == "thorough" and rng.random() < 0.2
+    # opcode granularity: whole hot files (thorough only, ~5x slower) or only the functions that
+    # contain a lazy-initialisation site (cheap, both tiers)
+    r = rng.random()
+    if tier == "thorough":
+        opcode = "files" if r < 0.15 else "sites" if r < 0.5 else False
+    else:
+        opcode = "sites" if r < 0.3 else False
     cache_size = rng.choice([1, 2, 8]) if rng.random() < 0.25 else None
     fault = None
     if rng.random() < 0.3:
@@ -253,13 +260,22 @@ def child_simulate(plan: dict, script: Optional[list] = None) -> dict:
     rng = random.Random(plan["seed"] ^ 0x5DEECE66D)
     strat = sched.make_strategy(["scripted", script] if script is not None else plan["strategy"])
     opcode_files = ()
-    if plan.get("opcode"):
+    opcode_sites = None
+    if plan.get("opcode") in (True, "files"):
         opcode_files = ("recursion.py", "cache.py", "methods.py", "conversions.py", "utils.py")
+    elif plan.get("opcode") == "sites":
+        from dst.c20 import sites as _sites
+
+        global _SITE_MAP
+        if _SITE_MAP is None:
+            _SITE_MAP = _sites.scan(boot.apischema_dir())
+        opcode_sites = _SITE_MAP
     sim = sched.Sim(
         rng,
         strat,
         trace_prefixes=(boot.apischema_dir(), pool.__file__),
         opcode_files=opcode_files,
+        opcode_sites=opcode_sites,
         step_cap=STEP_CAP,
         probe_sites=PROBE_SITES,
     )
